@@ -93,6 +93,11 @@ class PipelineCheck:
             # budget: inconclusive run, never a verdict
             run.status = 'budget'
             violations, extra = [], {}
+        except core.ReplayDiverged:
+            # a strict replay met different choice points (the code changed since the tape
+            # was recorded): the recorded violation is not observed
+            run.status = 'diverged'
+            violations, extra = [], {}
         rec = {
             'status': run.status,
             'violations': violations,
